@@ -39,6 +39,18 @@ func (h seenHook) OnWrite(ce *zapcore.CheckedEntry, fs []zapcore.Field) {
 	*h.seen = append(*h.seen, fmt.Sprintf("%v|%s|%d", ce.Level, ce.Message, len(fs)))
 }
 
+// c08PanicObj panics while it is being marshaled.
+type c08PanicObj struct{}
+
+func (c08PanicObj) MarshalLogObject(enc zapcore.ObjectEncoder) error {
+	enc.AddString("partial", "x")
+	panic("marshaler panics")
+}
+func (c08PanicObj) MarshalLogArray(enc zapcore.ArrayEncoder) error {
+	enc.AppendString("partial")
+	panic("marshaler panics")
+}
+
 // failSink fails every Write (and Sync).
 type failSink struct{}
 
@@ -158,7 +170,7 @@ func genC08History(t *rapid.T, maxOps int, discard *memSink, probeCfg ...*cfgSpe
 	), zap.AddCaller(), zap.AddStacktrace(zapcore.DebugLevel), zap.WithFatalHook(countHook{new(int64)}), zap.WithPanicHook(countHook{new(int64)}))
 	so := specOpts{faults: true, viaAny: true}
 	for i := 0; i < n; i++ {
-		kind := rapid.SampledFrom([]string{"log", "log", "bigopen", "gc", "poison", "deepstack", "errors", "clone", "terminal", "with", "sinkfail", "encfail"}).Draw(t, "historyOp")
+		kind := rapid.SampledFrom([]string{"log", "log", "bigopen", "gc", "poison", "deepstack", "errors", "clone", "terminal", "with", "sinkfail", "encfail", "panicmarshal"}).Draw(t, "historyOp")
 		h.names = append(h.names, kind)
 		switch kind {
 		case "log":
@@ -247,6 +259,29 @@ func genC08History(t *rapid.T, maxOps int, discard *memSink, probeCfg ...*cfgSpe
 				_ = bad.Sync()
 			})
 			h.pools["buffer"], h.pools["checked entry"], h.pools["json encoder"] = true, true, true
+		case "panicmarshal":
+			// a user marshaler that panics: the panic reaches (and is recovered by) the caller of the log method;
+			// whatever the encoders held at that moment must not come back to haunt later entries
+			console := rapid.Bool().Draw(t, "hConsole")
+			cs3 := genCfgSpec(t, cfgOpts{})
+			h.ops = append(h.ops, func() {
+				var e zapcore.Encoder
+				if console {
+					e = zapcore.NewConsoleEncoder(cs3.cfg)
+				} else {
+					e = zapcore.NewJSONEncoder(cs3.cfg)
+				}
+				lg := zap.New(zapcore.NewCore(e, discard, zapcore.DebugLevel), zap.AddCaller())
+				func() {
+					defer func() { _ = recover() }()
+					lg.Info("marshaler panics", zap.Int("before", 1), zap.Object("boom", c08PanicObj{}), zap.Int("after", 2))
+				}()
+				func() {
+					defer func() { _ = recover() }()
+					lg.With(zap.Array("boomarr", c08PanicObj{})).Info("never reached")
+				}()
+			})
+			h.pools["json encoder"], h.pools["slice encoder"], h.pools["buffer"] = true, true, true
 		case "encfail":
 			// reflected values that cannot be encoded, as context and at the call site
 			h.ops = append(h.ops, func() {
